@@ -96,7 +96,8 @@ async def _check(case, ctx: Ctx) -> CaseResult:
     from cylc.flow.util import serialise_set
     async with SCase(case, ctx) as sc:
         if sc.rejected:
-            return CaseResult([], False, ['rejected:' + sc.rejected])
+            return CaseResult(sc.crash_violations('C26'), False,
+                              ['rejected:' + sc.rejected])
         viol = []
         sim = sc.sim
         stats = {'checks': 0, 'db_checks': 0}
